@@ -42,3 +42,61 @@ def path_events(pr):
 
 def where_of(ev: Ev):
     return ev.site or ""
+
+
+def all_templates(ctx):
+    """Every emitted template known to engine T:
+    yields (origin label, statement kind label, path result, template value)."""
+    from ..extract import expr_wrapper_paths, helper_entries
+    from ..interp import Interp
+    from ..interp_base import Decisions
+
+    T = ctx.tmpl
+    for ci, kinds, entry in T.all_pending():
+        for pr in entry.ok_paths():
+            yield ci.name, kinds_label(pr.extra["node"].kinds), pr, pr.result
+    root, leaves, glob = T.namespace_leaves()
+    for ci in leaves:
+        for m in ("get_assign", "get_load_name"):
+            for pr in T.namespace_method(ci, m).ok_paths():
+                yield f"{ci.name}.{m}", ci.name, pr, pr.result
+    for name, entry in helper_entries(T).items():
+        for pr in entry.ok_paths():
+            yield name, name.split(":")[1], pr, pr.result
+    for pr in cached(ctx, "expr_wrapper_paths", lambda: expr_wrapper_paths(T)):
+        if pr.outcome == "ok":
+            yield "get_expr_wrapper", "wrapper", pr, pr.result
+    for name, val in preset_templates(ctx).items():
+        yield f"preset:{name}", "preset", None, val
+
+
+def cached(ctx, key, fn):
+    store = ctx.__dict__.setdefault("_rule_cache", {})
+    if key not in store:
+        store[key] = fn()
+    return store[key]
+
+
+def preset_templates(ctx):
+    """Module-level template objects of oneliner.presets (shared by all conversions)."""
+    def build():
+        from ..interp import Interp
+        from ..interp_base import Decisions
+        from ..vals import TNode
+
+        out = {}
+        it = Interp(ctx.prog, Decisions())
+        for mname, mi in ctx.prog.modules.items():
+            if not mname.startswith("oneliner.presets."):
+                continue
+            for name, b in mi.bindings.items():
+                if b[0] == "assign":
+                    try:
+                        v = it.module_global(mi, name)
+                    except Exception:
+                        continue
+                    if isinstance(v, TNode):
+                        out[name] = v
+        return out
+
+    return cached(ctx, "preset_templates", build)
